@@ -46,7 +46,11 @@ impl Outcome {
 
 /// One request on a fresh connection: the whole byte string arrives as the first read; afterwards the
 /// reader has nothing (Pending, no wake).  HEAD is detected from the request bytes for body framing.
-pub fn oneshot(router: &VerifRouter, raw: &[u8]) -> Outcome {
+pub fn oneshot(router: &VerifRouter, raw: &[u8]) -> Outcome { oneshot_with_writer(router, raw, WriterMode::All) }
+
+/// `oneshot` with the writer's answers chosen by the caller (environment deviation: a connection that takes only part of
+/// what it is offered / answers Pending before it takes anything)
+pub fn oneshot_with_writer(router: &VerifRouter, raw: &[u8], mode: WriterMode) -> Outcome {
     let head_request = raw.starts_with(b"HEAD ");
     let mut conn = RawConn::init();
     let mut reader = ScriptedReader::new(vec![raw.to_vec()], false);
@@ -79,11 +83,11 @@ pub fn oneshot(router: &VerifRouter, raw: &[u8]) -> Outcome {
             }
         }
     };
-    let mut w = ScriptedWriter::new(WriterMode::All);
+    let mut w = ScriptedWriter::new(mode);
     let sent = guarded(|| {
         let fut = send(res, &mut w);
         let mut fut = std::pin::pin!(fut);
-        match d.run(fut.as_mut(), 10_000) { RunResult::Ready(_) => true, _ => false }
+        match d.run(fut.as_mut(), 2_000_000) { RunResult::Ready(_) => true, _ => false }
     });
     match sent {
         Err(p) => Outcome::Panic("send", p),
